@@ -556,6 +556,13 @@ class WassFam(Fam):
             for i, vec in enumerate(V):
                 if not any(vec):
                     vec[0] = 0.25 * (i + 1)
+            if (self.cls == "approx" or self.method == "HeuristicLinearAlgebra") and draw(st.sampled_from([False, False, False, True])):
+                # vectors spanning fewer dimensions than they have coordinates: n_components may then exceed the rank
+                for vec in V:
+                    vec[-1] = 0.0
+                for i, vec in enumerate(V):
+                    if not any(vec):
+                        vec[0] = 0.25 * (i + 1)
             w = st.one_of(st.just(0), st.integers(0, 5), st.sampled_from([0.5, 2.5]))
 
             def rows(lo, hi):
